@@ -362,7 +362,8 @@ func runC18(c *Ctx, d c18Desc) {
 			c.Check(false, "restore_returns", "C18/restore-hang/noP", "restore blocked", nil)
 			return
 		}
-		c.Check(!nx.Done(), "next_not_released_by_restore", "C18/next-released-by-restore", "the runtime's next was released by the restore request", nil)
+		// a release would reach the runtime a moment later (HTTP round trip): give it that moment
+		c.Check(nx.Wait(300*time.Millisecond) == nil, "next_not_released_by_restore", "C18/next-released-by-restore", "the runtime's next was released by the restore request", nil)
 
 	case "P,R,X":
 		a := park()
